@@ -41,6 +41,9 @@ theorem chainInv_apply (h0 : Nat) (s : State) (a : Act) (h : ChainInv h0 s) : Ch
   | disc =>
     simp only [apply, discard, ChainInv]
     split <;> exact ⟨h1, h2⟩
+  | notify =>
+    simp only [apply, notify, ChainInv]
+    split <;> exact ⟨h1, h2⟩
   | run =>
     simp only [apply, runStep]
     split
